@@ -60,10 +60,11 @@ def eval_case(case: dict) -> dict:
         from harness import lib_buildalg as L
 
         try:
+            pal = case.get("pal")
             if case["kind"] == "script":
-                R = L.realise_script(case["script"])
+                R = L.realise_script(case["script"], pal=pal)
             else:
-                R = L.realise_lowlevel(case["ap"])
+                R = L.realise_lowlevel(case["ap"], pal=pal)
         except Exception as e:  # noqa: BLE001 - not constructible with the real constructors: not a build matter
             out["unrealisable"] = f"{type(e).__name__}: {str(e)[:100]}"
             return out
@@ -74,6 +75,15 @@ def eval_case(case: dict) -> dict:
         out["leaky"] = bool({a for a in leaked if a in reach})
         out["reuse"] = L.ap_reuse(ap)
         out.update(_observe_all(L, R, ap))
+        if R.merged:
+            # counted at the call site: two constructor calls of the program returned one node object,
+            # so two operator applications made in Python can only appear as one node of the model
+            a, b_ = R.merged[0]
+            out["oracle"].append((
+                "call-sites-merged",
+                f"operator applications {a} and {b_} ({ap['nodes'][b_]['k']}) are two constructor calls of the "
+                f"program but one node object: they cannot both appear in the model ({len(R.merged)} such pairs)",
+            ))
         if case.get("public") and ap["graphs"][0]["args"] is not None:
             # the public entry point `spox.build` must come to the same verdict and pass the same oracle
             o3 = L.observe_public(R)
@@ -84,7 +94,9 @@ def eval_case(case: dict) -> dict:
         if case.get("twin"):
             # the same abstract program through the low-level API must look the same to the Builder
             try:
-                o2 = _observe_all(L, L.realise_lowlevel(ap), ap)
+                # ... and with other operator kinds of the same arity in the place of each application
+                # (the Builder model has no node kinds: `build` cannot depend on them)
+                o2 = _observe_all(L, L.realise_lowlevel(ap, pal=None if pal is None else pal + 1), ap)
                 out["twin_same"] = all(o2[k] == out[k] for k in ("verdict", "trace", "facets"))
             except Exception as e:  # noqa: BLE001
                 out["twin_same"] = f"{type(e).__name__}: {str(e)[:100]}"
@@ -160,7 +172,7 @@ def eval_history(case: dict) -> dict:
         from spox import _graph
 
         def realise():
-            return L.realise_script(case["script"])
+            return L.realise_script(case["script"], pal=case.get("pal"))
 
         def build(R, req):
             ap = R.ap
@@ -204,7 +216,7 @@ def eval_history(case: dict) -> dict:
                     out["oracle"].append((
                         "history:" + okey,
                         f"after building {seq[:k]} over the same objects, request {req}: " + what,
-                        {"kind": "history", "script": case["script"], "sequences": [seq[: k + 1]]},
+                        {"kind": "history", "script": case["script"], "sequences": [seq[: k + 1]], "pal": case.get("pal")},
                     ))
                 if summary != fresh[key] and out["history_dependent"] is None:
                     out["history_dependent"] = {
@@ -328,6 +340,9 @@ def gen_cases(ck: core.Check) -> tuple[list[dict], dict]:
         cases.append({"kind": "script", "script": sc, "family": f"random-leak{leak_p}"})
     stats["random_scripts"] = len(cases) - n0
     for i, c in enumerate(cases):
+        # operator kinds: every third case keeps the plain constructors, the others draw a palette
+        if i % 3:
+            c["pal"] = rng.randrange(1 << 20)
         if i % 4 == 0:
             c["twin"] = True
         if i % 8 == 3:
@@ -408,7 +423,7 @@ def run(ck: core.Check, prove: bool = True):
     hsrc = [c for c in cases if c["kind"] == "script"]
     hrng = random.Random(ck.seed * 104729 + 7)
     hrng.shuffle(hsrc)
-    hcases = [{"kind": "history", "script": c["script"], "hseed": hrng.randrange(1 << 30), "family": c.get("family")}
+    hcases = [{"kind": "history", "script": c["script"], "hseed": hrng.randrange(1 << 30), "family": c.get("family"), "pal": c.get("pal")}
               for c in hsrc[: ck.pick(900, 9000)]]
     hresults = run_history_cases(ck, hcases)
     hstats = {"programs": len(hcases), "builds": sum(r["builds"] for r in hresults),
